@@ -1407,6 +1407,15 @@ pub fn run_case_with(known: &Known, case: &Case) -> CaseOutcome {
             let mut confirmed = true;
             let mut last = s;
             for _ in 0..2 {
+                // calibration: if a plain 2 ms sleep oversleeps by a third of the slack, the box is overloaded and an
+                // upper-bound miss says nothing about calloop (inconclusive, never a violation)
+                let t0 = Instant::now();
+                std::thread::sleep(Duration::from_millis(2));
+                if t0.elapsed() > Duration::from_millis(2) + SLACK / 3 {
+                    info.classes.push("upper_bound_miss_inconclusive_box_overloaded");
+                    confirmed = false;
+                    break;
+                }
                 let o2 = run_once(&c);
                 let j2 = judge(&c, &o2);
                 match j2.soft.into_iter().find(|v| v.sig == last.sig) {
